@@ -139,20 +139,18 @@ def playback(repo, harness, timeout=900):
     return dict(bytes=vals, pretty=comments), None
 
 
-def native_replay(repo, name, vals, timeout=1500):
-    """Build (cached) a tiny runner against the real crate with --cfg engeom_verif and re-run the harness body."""
-    tag = "main" if os.path.realpath(repo) == "/repo" else hashlib.sha1(os.path.realpath(repo).encode()).hexdigest()[:8]
-    rdir = os.path.join(CACHE, "replay-" + tag)
-    import shutil
-    if tag != "main" and os.path.exists(os.path.join(CACHE, "replay-main", "Cargo.lock")) and not os.path.exists(os.path.join(rdir, "Cargo.lock")):
-        os.makedirs(rdir, exist_ok=True)
-        shutil.copy(os.path.join(CACHE, "replay-main", "Cargo.lock"), os.path.join(rdir, "Cargo.lock"))
-    os.makedirs(os.path.join(rdir, "src"), exist_ok=True)
-    with open(os.path.join(rdir, "Cargo.toml"), "w") as f:
-        f.write('[package]\nname = "vreplay"\nversion = "0.0.0"\nedition = "2021"\n\n[dependencies]\nengeom = { path = "%s" }\n\n[workspace]\n' % os.path.realpath(repo))
-    with open(os.path.join(rdir, "src", "main.rs"), "w") as f:
-        f.write('''fn main() {
+RUNNER_MAIN = '''fn main() {
     let a: Vec<String> = std::env::args().collect();
+    if a[1] == "bounded" {
+        match engeom::verif_kani::bounded::run(&a[2]) {
+            None => { println!("BOUNDED-UNKNOWN {}", a[2]); std::process::exit(3); }
+            Some(r) => {
+                println!("BOUNDED cases={} checks={} failures={} bound={}", r.cases, r.checks, r.failures.len(), r.bound);
+                for f in r.failures.iter() { println!("BOUNDED-FAIL {}", f.replace('\\n', " ")); }
+                std::process::exit(if r.failures.is_empty() { 0 } else { 1 });
+            }
+        }
+    }
     let name = &a[1];
     let vals: Vec<Vec<u8>> = a[2].split(';').filter(|s| !s.is_empty()).map(|v| v.split(',').filter(|s| !s.is_empty()).map(|b| b.parse().unwrap()).collect()).collect();
     match engeom::verif_kani::replay(name, vals) {
@@ -160,11 +158,27 @@ def native_replay(repo, name, vals, timeout=1500):
         Err(m) => { println!("REPLAY-FAILED {}", m); std::process::exit(1); }
     }
 }
-''')
+'''
+
+
+def build_runner(repo, timeout=2400):
+    """Build (cached) the native runner against the real crate with --cfg engeom_verif. Returns (path or None, note)."""
+    import shutil
+    tag = "main" if os.path.realpath(repo) == "/repo" else hashlib.sha1(os.path.realpath(repo).encode()).hexdigest()[:8]
+    rdir = os.path.join(CACHE, "replay-" + tag)
+    if tag != "main" and os.path.exists(os.path.join(CACHE, "replay-main", "Cargo.lock")) and not os.path.exists(os.path.join(rdir, "Cargo.lock")):
+        os.makedirs(rdir, exist_ok=True)
+        shutil.copy(os.path.join(CACHE, "replay-main", "Cargo.lock"), os.path.join(rdir, "Cargo.lock"))
+    os.makedirs(os.path.join(rdir, "src"), exist_ok=True)
+    with open(os.path.join(rdir, "Cargo.toml"), "w") as f:
+        f.write('[package]\nname = "vreplay"\nversion = "0.0.0"\nedition = "2021"\n\n[dependencies]\nengeom = { path = "%s" }\n\n[profile.dev]\nopt-level = 1\n\n[workspace]\n' % os.path.realpath(repo))
+    mainp = os.path.join(rdir, "src", "main.rs")
+    if not os.path.exists(mainp) or open(mainp).read() != RUNNER_MAIN:
+        with open(mainp, "w") as f:
+            f.write(RUNNER_MAIN)
     lock = os.path.join(rdir, "Cargo.lock")
     if not os.path.exists(lock):
         try:
-            import shutil
             shutil.copy(os.path.join(repo, "Cargo.lock"), lock)
         except Exception:
             pass
@@ -174,14 +188,45 @@ def native_replay(repo, name, vals, timeout=1500):
     try:
         b = subprocess.run(["cargo", "build", "--offline", "--quiet"], cwd=rdir, env=env, capture_output=True, text=True, timeout=timeout)
     except subprocess.TimeoutExpired:
-        return dict(reproduced=False, note="native replay build timed out")
+        return None, "native runner build timed out"
     if b.returncode != 0:
-        return dict(reproduced=False, note="native replay build failed: " + b.stderr[-800:])
+        errs = [l for l in b.stderr.splitlines() if l.startswith("error")]
+        return None, "native runner build failed: " + ("; ".join(errs[:4]) or b.stderr[-800:])
+    return os.path.join(env["CARGO_TARGET_DIR"], "debug", "vreplay"), "ok"
+
+
+def native_replay(repo, name, vals, timeout=2400):
+    """Re-run a harness body natively on the counterexample bytes."""
+    exe, note = build_runner(repo, timeout)
+    if exe is None:
+        return dict(reproduced=False, note=note)
     arg = ";".join(",".join(str(x) for x in v) for v in vals)
-    r = subprocess.run([os.path.join(env["CARGO_TARGET_DIR"], "debug", "vreplay"), name, arg], capture_output=True, text=True, timeout=120)
+    r = subprocess.run([exe, name, arg], capture_output=True, text=True, timeout=120)
     out = (r.stdout + r.stderr).strip()
     panicked = r.returncode not in (0, 1)
     return dict(reproduced=(r.returncode != 0), output=out[-1500:], panicked=panicked)
+
+
+def run_bounded(repo, prop, timeout=1800):
+    """Engine B: bounded native checks (kani/harness/bounded/). Returns dict(status, cases, checks, failures, bound)."""
+    t0 = time.time()
+    exe, note = build_runner(repo)
+    if exe is None:
+        return dict(status="undecided", reason=note, harness="bounded:" + prop)
+    try:
+        r = subprocess.run([exe, "bounded", prop], capture_output=True, text=True, timeout=timeout)
+    except subprocess.TimeoutExpired:
+        return dict(status="undecided", reason="bounded run timed out", harness="bounded:" + prop)
+    out = r.stdout
+    m = re.search(r"BOUNDED cases=(\d+) checks=(\d+) failures=(\d+) bound=(.*)", out)
+    fails = [l[len("BOUNDED-FAIL "):] for l in out.splitlines() if l.startswith("BOUNDED-FAIL ")]
+    if not m:
+        # a panic inside the real code on an enumerated input is a failing input as well
+        if r.returncode not in (0, 1, 3) and "panicked" in (r.stderr or ""):
+            return dict(status="fail", harness="bounded:" + prop, cases=0, checks=0, failures=["the real code panicked on an enumerated input: " + r.stderr.strip()[-600:]], bound="", wall_s=round(time.time() - t0, 1))
+        return dict(status="undecided", reason="no BOUNDED line: " + (out + r.stderr)[-400:], harness="bounded:" + prop)
+    return dict(status="fail" if fails else "ok", harness="bounded:" + prop, cases=int(m.group(1)), checks=int(m.group(2)),
+                failures=fails, bound=m.group(4), wall_s=round(time.time() - t0, 1), cmd="%s bounded %s" % (exe, prop))
 
 
 def run_groups(prop, entries, tier, repo):
